@@ -277,4 +277,37 @@ PROPS = {
                         'operators outside the set the analyser supports (comparisons other than ==/!=, logical operators) are left to C03'],
         'partial': ['leaf statements, expressions and the operator/literal mapping: implementation oracle against the reference translation'],
     },
+    'C04': {
+        'coq': 'Props/C04.v',
+        'families': [
+            {'name': 'accept', 'args': {'quick': ['--templates', 1, '--programs', 20000], 'thorough': ['--templates', 1, '--programs', 1000000]},
+             'shards': {'quick': 16, 'thorough': 16}, 'driver_args': ['--nodedupe']},
+            {'name': 'tree', 'args': {'quick': ['--programs', 6000], 'thorough': ['--programs', 200000]},
+             'shards': {'quick': 16, 'thorough': 16}, 'driver_args': []},
+        ],
+        'exhaustive': {'quick': True, 'thorough': True},
+        'rule': 'exhaustive: each of the 83 statement templates (one per statement form of the reference grammar) in each of the 10 '
+                'statement contexts; random: generated model programs of 2-11 top-level statements nested to depth 0-5 over the full '
+                'operator set, printed with minimal or redundant parentheses in three layouts (single blanks, rich trivia with comments '
+                'and line breaks, minimal spacing), block and single-statement bodies; the tree family compares the model tree with the '
+                'implementation tree on such programs; non-trivial = every case',
+        'trusted_base': ['pipeline models (as C01/C02); tools/templates.txt and harness/src/gen.rs are the reference grammar',
+                         'generated coq/gen/Templates.v (tools/gen_tables.py, regenerated from tools/templates.txt every run)'],
+        'assumptions': ['the reference grammar avoids the listed known findings (assignment of a binary expression is written with parentheses; ...)'],
+        'partial': ['programs beyond the templates: implementation oracle and tree correspondence only'],
+    },
+    'C16': {
+        'coq': 'Props/C16.v',
+        'families': [
+            {'name': 'accept', 'args': {'quick': ['--templates', 1, '--sequences', 20000], 'thorough': ['--templates', 1, '--sequences', 1000000]},
+             'shards': {'quick': 16, 'thorough': 16}, 'driver_args': ['--nodedupe']},
+        ],
+        'exhaustive': {'quick': True, 'thorough': True},
+        'rule': 'exhaustive: every ordered pair of the 83 statement templates, concatenated at top level and inside a block body (6889 pairs, '
+                'compared with the model pair by pair); random: sequences of 2-5 generated statements (all statement kinds, nested to depth '
+                '2) each parsed alone and then concatenated, at top level and inside a block; non-trivial = every case',
+        'trusted_base': ['pipeline models (as C01/C02); tools/templates.txt'],
+        'assumptions': ['statements are separated by a blank (templates) or a line break (generated sequences)'],
+        'partial': ['sequences longer than two and statements beyond the templates: implementation oracle only'],
+    },
 }
